@@ -245,6 +245,7 @@ struct Rw<'a> {
     machine: Vec<String>,
     qnames: Vec<String>,
     index2: bool,
+    index1: Vec<String>,
     for_range: bool,
     subst: Vec<(String, String)>,
     sections: &'a BTreeMap<String, String>,
@@ -677,6 +678,13 @@ impl<'a, 'b, 'ast> Visit<'ast> for Collector<'a, 'b> {
                 }
                 visit::visit_expr(self, e);
             }
+            Expr::Index(ix) if !rw.index1.is_empty() && rw.index1.contains(&rw.src[ix.expr.span().byte_range()].split_whitespace().collect::<String>()) => {
+                // R13: `b[i]` on a user type implementing Index<usize> (option index1=<base text>) -> `(*b.index(i))`
+                let text = format!("(*{}.index({}))", rw.render_expr(&ix.expr), rw.render_expr(&ix.index));
+                rw.count("R13");
+                let sp = e.span().byte_range();
+                self.edits.push((sp.start, sp.end, text));
+            }
             Expr::Index(ix) if rw.index2 && matches!(&*ix.index, Expr::Tuple(t) if t.elems.len() == 2) => {
                 // R13: `m[(i, j)]` (Index<(usize, usize)>) -> `m.at(i, j)`
                 if let Expr::Tuple(t) = &*ix.index {
@@ -815,6 +823,7 @@ fn extract_body(repo: &Path, source: &str, d: &Directive, variant: &str) -> Resu
         machine: d.opts.get("machine").map(|s| s.split(',').map(|x| x.to_string()).collect()).unwrap_or_default(),
         qnames: d.opts.get("q").map(|s| s.split(',').map(|x| x.to_string()).collect()).unwrap_or_default(),
         index2: d.opts.get("index2").map(|v| v == "1").unwrap_or(false),
+        index1: d.opts.get("index1").map(|s| s.split(',').map(|x| x.to_string()).collect()).unwrap_or_default(),
         for_range: d.opts.get("for_range").map(|v| v == "1").unwrap_or(false),
         subst,
         sections: &d.sections,
